@@ -475,8 +475,64 @@ def gen_c09(tier, R, off):
         args = [R.choice(pool) for _ in range(R.choice([0, 1, 1, 2, 2, 3, 4]))]
         sc = script_of(n, args)
         if sc is not None:
-            out.append("(script _ " + " ".join(str(ord(c)) for c in sc) + ")")
+            out.append(("(script _ " if off == 1 else "(script0 _ ") + " ".join(str(ord(c)) for c in sc) + ")")
+    out += gen_composite_scripts(tier, R, off)
     return out
+
+
+def gen_composite_scripts(tier, R, off):
+    """whole programs over the real standard library: calls nested in calls, operators, conditionals and arrays around them - scanned, parsed, validated, optimized and executed by the crate,
+    and by the model as one function (StdEnv.run_script); compared before and after optimize"""
+    nums = ["0", "1", "2", "3", "2.5", "10", "0.1", "100", "7"]
+    strs = ["''", "'a'", "'abc'", "'Hello World'", "'a,b,c'", "'  x '", "'ÄÖ'", "'2024-02-29'", "'10'", "'3.5'", "'aXbXc'", "'ΑΣ'"]
+    arrs = ["[]", "[1, 2, 3]", "['b', 'a']", "[3, 1, 2, 1]", "[true, false]", "[[1], [2]]", "['1', 1, true]"]
+
+    def num_e(d):
+        k = R.random()
+        if d == 0 or k < 0.3:
+            return R.choice(nums)
+        c = R.choice(["length({s})", "length({a})", "find({s}, {s})", "count({s}, {s})", "max({n}, {n})", "min({n}, {n}, {n})", "abs({n})", "round({n})", "trunc({n})", "int({s10})", "float({s10})",
+                      "ord('a')", "at({a3}, {i})", "({n} + {n})", "({n} * {n})", "({n} - {n})", "({n} div 2)", "({n} mod 3)", "if_then({b}, {n}, {n})", "year(encode_date(2024, 2, 29))",
+                      "day(inc_month(encode_date(2024, 1, 31), {i}))", "compare({n}, {n})", "pow({n})", "frac({n})", "hour(encode_time(13, 5, 7))", "day_of_week(string_to_date('2024-03-03'))"])
+        return fill(c, d)
+
+    def str_e(d):
+        k = R.random()
+        if d == 0 or k < 0.3:
+            return R.choice(strs)
+        c = R.choice(["lowercase({s})", "uppercase({s})", "trim({s})", "copy({s}, {i}, {i})", "replace({s}, {s}, {s})", "str({n})", "str({b})", "reverse({s})", "insert({s}, {s}, 1)", "({s} + {s})",
+                      "int_to_hex({n})", "chr(65)", "at({s3}, {i})", "if_then({b}, {s}, {s})", "remove({s}, 'a')", "date_to_string('%Y-%m-%d', encode_date(2024, 2, {i}))", "re_replace({s}, 'a', 'b')"])
+        return fill(c, d)
+
+    def bool_e(d):
+        k = R.random()
+        if d == 0 or k < 0.3:
+            return R.choice(["true", "false"])
+        c = R.choice(["contains({s}, {s})", "contains({a}, {n})", "empty({s})", "empty({a})", "same_text({s}, {s})", "even({n})", "odd({n})", "between({n}, {n}, {n})", "all({b}, {b})", "any({a})",
+                      "({n} < {n})", "({s} = {s})", "({n} = {s10})", "({b} and {b})", "({b} or {b})", "(not {b})", "({b} xor {b})", "is_leap_year(encode_date(2024, 1, 1))", "bool({n})", "({a} = {a})"])
+        return fill(c, d)
+
+    def arr_e(d):
+        k = R.random()
+        if d == 0 or k < 0.35:
+            return R.choice(arrs)
+        c = R.choice(["sort({a})", "unique({a})", "reverse({a})", "split({s}, ',')", "copy({a}, 0, {i})", "insert({a}, {n}, 0)", "({a} + {a})", "[{n}, {s}, {b}]", "split_csv({s})", "re_find({s}, 'a')"])
+        return fill(c, d)
+
+    def fill(c, d):
+        out = c
+        while '{' in out:
+            i = out.index('{'); j = out.index('}', i); key = out[i + 1:j]
+            rep = {'n': lambda: num_e(d - 1), 's': lambda: str_e(d - 1), 'b': lambda: bool_e(d - 1), 'a': lambda: arr_e(d - 1), 'i': lambda: R.choice(["0", "1", "2", "3"]),
+                   's10': lambda: R.choice(["'10'", "'3.5'", "'0'"]), 'a3': lambda: "[1, 2, 3]", 's3': lambda: "'abc'"}[key]()
+            out = out[:i] + rep + out[j + 1:]
+        return out
+    res = []
+    kind = "(script _ " if off == 1 else "(script0 _ "
+    for _ in range(2500 if tier == 'quick' else 100000):
+        sc = R.choice([num_e, str_e, bool_e, arr_e])(R.randint(1, 3))
+        res.append(kind + " ".join(str(ord(c)) for c in sc) + ")")
+    return res
 
 
 # ---------------- C14 ----------------
